@@ -41,7 +41,11 @@
     - [HAddVars k]: [Manager::add_vars]: [k] new levels at the bottom, the new
       variable [n + i] sits at level [n + i]; no node is touched; the apply
       cache is NOT cleared ([pre_reorder] of the cache is the default no-op);
-    - [HSetVarOrder order]: [oxidd_reorder::set_var_order] inside
+    - [HSetVarOrder order]: [oxidd_reorder::set_var_order]
+      (oxidd-reorder/src/set_var_order/mod.rs).  It returns at once when at
+      most one variable is named or when every level already is at its target
+      position ([sorted]; the cache survives), and panics (here: [None]) when
+      a variable is out of range or named twice.  Otherwise it works inside
       [Manager::reorder] (which calls [pre_gc], i.e. clears the cache):
       [set_var_order_model] of Mgr/LevelSwap.v (a sequence of adjacent
       [level_swap]s).  [level_swap] removes a node of the old lower level when
@@ -232,8 +236,13 @@ Definition hstep (st : hstate) (o : hop) : option hstate :=
     Some (mkH (set_handles (gc_model (with_roots st)) (s_handles s)) cempty (h_reg st) (h_next st))
   | HAddVars k => Some (mkH (add_vars_model s k) c (h_reg st) (h_next st))
   | HSetVarOrder order =>
-    Some (mkH (set_handles (set_var_order_model (with_roots st) order) (s_handles s))
-              cempty (h_reg st) (h_next st))
+    if Nat.leb (length order) 1 then Some st                         (* "nothing to do" *)
+    else if order_ok_b (nlevels s) order then
+      let target := sort_order (nlevels s) (map (fun v => nth v (s_v2l s) 0) order) in
+      if nat_list_eqb target (seq 0 (nlevels s)) then Some st        (* [sorted]: return before [manager.reorder] *)
+      else Some (mkH (set_handles (set_var_order_model (with_roots st) order) (s_handles s))
+                     cempty (h_reg st) (h_next st))
+    else None     (* [var_to_level] out of bounds / "`order` contains level .. twice" *)
   end.
 
 Fixpoint hrun (st : hstate) (ops : list hop) : option hstate :=
